@@ -44,6 +44,18 @@ def _entries():
         a = W.reals('a', (2, 2))
         return {'mask': m, 'amplitude': a}, lambda: lt.Pupil(amplitude=a, mask=m, focal_length=1.0, pixelscale=1.0)
 
+    @reg('Pupil(mask=one-layer cube)')
+    def _(W, lt):
+        m = W.array([[[W.real('m0', nz=True), W.real('m1', nz=True)], [0, W.real('m2', nz=True)]]])
+        a = W.reals('a', (2, 2))
+        return {'mask': m, 'amplitude': a}, lambda: lt.Pupil(amplitude=a, mask=m, focal_length=1.0, pixelscale=1.0)
+
+    @reg('Pupil(mask=[2-D mask])')
+    def _(W, lt):
+        m = W.array([[W.real('m0', nz=True), 0], [W.real('m1', nz=True), W.real('m2', nz=True)]])
+        a = W.reals('a', (2, 2))
+        return {'mask': m, 'amplitude': a}, lambda: lt.Pupil(amplitude=a, mask=[m], focal_length=1.0, pixelscale=1.0)
+
     @reg('Image(amplitude=)')
     def _(W, lt):
         a = W.reals('a', (2, 2), nz=True)
@@ -370,7 +382,7 @@ def run_inplace(W, cfg):
 
 # ------------------------------------------------------------------ histories
 def cfg_hist(tier, seed):
-    out = [{'case': c} for c in ('plane-reuse', 'interleaved-dft2', 'fit-tilt-twice', 'fit-tilt-twice-segmented', 'spectrum-reuse', 'spectrum-edit-sample', 'operand-attributes', 'multiply-rescale-multiply', 'fit-tilt-copy-segmented', 'fit-tilt-copy-degenerate', 'views-keep-fields', 'wavefront-fanout', 'offset-dft2-twice', 'scratch-reuse')]
+    out = [{'case': c} for c in ('plane-reuse', 'interleaved-dft2', 'fit-tilt-twice', 'fit-tilt-twice-segmented', 'spectrum-reuse', 'spectra-sharing-arrays', 'spectrum-edit-sample', 'operand-attributes', 'multiply-rescale-multiply', 'fit-tilt-copy-segmented', 'fit-tilt-copy-degenerate', 'views-keep-fields', 'wavefront-fanout', 'offset-dft2-twice', 'scratch-reuse')]
     return out, len(out), True
 
 
@@ -554,6 +566,20 @@ def run_hist(W, cfg):
         unchanged('image wavefront after w * Image', img, bi)
         W.ob('the shared wavefront multiplies the next plane as before', (w0 * plain).field, before_field)
         W.ob('focal length of the product with the plain plane is the wavefront\'s own', (w0 * plain).focal_length, f0)
+    elif case == 'spectra-sharing-arrays':
+        # two Spectrum objects built from the same caller arrays: editing one (unit conversions, crop, trim) leaves the other and the arrays alone
+        R = W.mod('radiometry')
+        wv = W.array([W.const(Fraction(g)) for g in (500, 510, 520)])
+        vv = W.array([W.real('v0'), W.real('v1'), W.real('v2')])
+        w0, v0 = wv.copy(), vv.copy()
+        for edit in ('to-um', 'to-wlam', 'to-um-wlam', 'crop'):
+            s1 = R.Spectrum(wv, vv, waveunit='nm', valueunit='photlam')
+            s2 = R.Spectrum(wv, vv, waveunit='nm', valueunit='photlam')
+            {'to-um': lambda: s1.to('um'), 'to-wlam': lambda: s1.to('wlam'), 'to-um-wlam': lambda: s1.to('um', 'wlam'), 'crop': lambda: s1.crop(505, 520)}[edit]()
+            W.ob(f'{edit}: the caller\'s wavelength array untouched', wv, w0)
+            W.ob(f'{edit}: the caller\'s value array untouched', vv, v0)
+            W.ob(f'{edit}: the sibling Spectrum keeps its values', s2.value, v0)
+            W.ob(f'{edit}: the sibling Spectrum keeps its wavelengths', s2.wave, w0)
     elif case == 'spectrum-edit-sample':
         # sample in another wavelength unit, edit the values (setter, flux-unit conversion, in-place arithmetic), sample again:
         # the answer is that of a fresh Spectrum in the same state
